@@ -3,8 +3,17 @@
 # from the local wheelhouse, plus a .pth that exposes /venv's site-packages (numpy, pandas, networkx, fsic editable).
 set -e
 cd "$(dirname "$0")"
-if [ -x .venv/bin/python ] && .venv/bin/python -c "import z3, cvc5, jsonschema, numpy, fsic" 2>/dev/null; then
+ready() { [ -x .venv/bin/python ] && .venv/bin/python -c "import z3, cvc5, jsonschema, numpy, fsic" 2>/dev/null; }
+if ready; then
   exit 0
+fi
+# several checks started at once on a fresh checkout: one builds, the others wait for it
+if command -v flock >/dev/null 2>&1; then
+  exec 9> .venv.lock
+  flock 9
+  if ready; then
+    exit 0
+  fi
 fi
 rm -rf .venv
 /venv/bin/python -m venv .venv
